@@ -480,6 +480,84 @@ fn progress_sig(sh: &Shared) -> (usize, usize, usize, usize, u64, usize, usize) 
 
 /// Run the real server against the scripted world. Panics propagate to the caller
 /// (wrap in `vnet::catch`).
+/// `run_world` with panics caught and with a watchdog: the world runs on a worker thread; a run that has not come
+/// back after 40 s (and then another 120 s - runs take well under a millisecond) is reported as
+/// `Err("HANG: ...")`: some poll of the server future never returned. The worker is then abandoned (it cannot be
+/// stopped) and a fresh one is used for the next case. Inline under Miri (no threads needed there: Miri cases are
+/// few and a hang shows as the shard's own time limit).
+pub fn run_world_caught(cfg: WorldCfg) -> Result<WorldOut, String> {
+    use std::sync::mpsc;
+    use std::time::Duration;
+    if cfg!(miri) {
+        return vnet::catch(|| run_world(&cfg));
+    }
+    if HUNG.load(std::sync::atomic::Ordering::Relaxed) {
+        return Err("SKIPPED: an earlier case of this run never came back".into());
+    }
+    struct Worker {
+        tx: mpsc::Sender<WorldCfg>,
+        rx: mpsc::Receiver<Result<WorldOut, String>>,
+    }
+    thread_local! {
+        static WORKER: RefCell<Option<Worker>> = const { RefCell::new(None) };
+    }
+    fn spawn() -> Worker {
+        let (tx, wrx) = mpsc::channel::<WorldCfg>();
+        let (wtx, rx) = mpsc::channel();
+        std::thread::Builder::new()
+            .stack_size(32 << 20)
+            .spawn(move || {
+                while let Ok(c) = wrx.recv() {
+                    if wtx.send(vnet::catch(|| run_world(&c))).is_err() {
+                        break;
+                    }
+                }
+            })
+            .expect("spawn world worker");
+        Worker { tx, rx }
+    }
+    WORKER.with(|w| {
+        let mut w = w.borrow_mut();
+        if w.is_none() {
+            *w = Some(spawn());
+        }
+        if w.as_ref().unwrap().tx.send(cfg.clone()).is_err() {
+            *w = Some(spawn());
+            let _ = w.as_ref().unwrap().tx.send(cfg);
+        }
+        let first = w.as_ref().unwrap().rx.recv_timeout(Duration::from_secs(40));
+        match first {
+            Ok(r) => r,
+            Err(mpsc::RecvTimeoutError::Disconnected) => {
+                *w = None;
+                Err("the worker thread running the server died".into())
+            }
+            Err(mpsc::RecvTimeoutError::Timeout) => match w.as_ref().unwrap().rx.recv_timeout(Duration::from_secs(120)) {
+                Ok(r) => r,
+                Err(_) => {
+                    *w = None;
+                    HUNG.store(true, std::sync::atomic::Ordering::Relaxed);
+                    Err("HANG: a poll of Server::run has not returned for 160 s (cases take less than a millisecond)".into())
+                }
+            },
+        }
+    })
+}
+
+static HUNG: std::sync::atomic::AtomicBool = std::sync::atomic::AtomicBool::new(false);
+
+/// Report a world that did not produce an outcome (panic, or a poll that never returned; after such a hang the
+/// remaining cases of the run are skipped - each would cost minutes - and counted).
+pub fn world_failure(rep: &mut vnet::Report, prop: &str, p: &str, detail: String, replay: Value) {
+    if p.starts_with("SKIPPED:") {
+        rep.count("cases_skipped_after_a_hang");
+    } else if p.starts_with("HANG:") {
+        rep.violation(&format!("{prop}/a-poll-of-the-server-never-returns"), format!("{p}; {detail}"), replay);
+    } else {
+        rep.violation(&format!("{prop}/panic-in-server"), format!("panic: {p}; {detail}"), replay);
+    }
+}
+
 pub fn run_world(cfg: &WorldCfg) -> WorldOut {
     let n = cfg.conns.len();
     let (listener, lref) = new_listener();
